@@ -375,7 +375,15 @@ def r04_6(ctx, S, prog, crate):
     r03_4(Renamed(ctx, "R04.6"), S, prog, crate)
 
 
+def r04_7(ctx, prog, crate):
+    """(= R15.12) `--skip-ext-time` given without a value turns the option on: the reader in config_with_args asks for the
+    occurrence and stores Some(true) for the bare flag."""
+    from .C15 import optional_value_flags
+    optional_value_flags(ctx, "R04.7", prog, crate)
+
+
 def run(ctx, prog, crate):
+    r04_7(ctx, prog, crate)
     r04_5(ctx, prog, crate)
     S = Sampling(prog, crate)
     if not ctx.anchor("R04.1", "sampling loop (loop around ThreadPool::par_extend)", 1 if S.body is not None and S.loop is not None and S.cond_switch is not None else 0, 1):
